@@ -109,7 +109,7 @@ typedef struct {
     int64_t var[MAXVAR];
     hevent hev[MAXHEV];
     /* recording (C14): one window per object */
-    struct { bool on, done, ever; double t0, t1; double integral; double last_t; double last_v; uint64_t changes; } rec[5][4];
+    struct { bool on, done, ever; double t0, t1; double integral; double last_t; double last_v; uint64_t changes; int windows; double on_time, win_t0; } rec[5][4];
     /* run */
     uint64_t seq;            /* events executed */
     uint64_t sigctr;
